@@ -338,7 +338,7 @@ def run_case(ctx, case):
         ctx.violation("grading-inverted-sections", f"{before} -> {gi.specification}")
         return
     for a, b in zip(gi.specification, before[::-1]):
-        if abs(a[2] * b[2] - 1) > 1e-12:
+        if not (abs(a[2] * b[2] - 1) <= 1e-12):
             ctx.violation("grading-inverted-expansion", f"{before} -> {gi.specification}")
             return
     if gi.count != g.count:
